@@ -246,6 +246,9 @@ void parsec_hash_table_unlock_bucket_handle_impl(parsec_hash_table_t *ht,
     }
     cur_head = ht->rw_hash;
     parsec_atomic_unlock(&ht->rw_hash->buckets[hash].lock);
+#if defined(PARSEC_VERIF)
+    PARSEC_VERIF_YIELD(PARSEC_VERIF_SITE_HASH_TABLE);
+#endif
     parsec_atomic_rwlock_rdunlock(&ht->rw_lock);
 
     if( resize ) {
